@@ -250,6 +250,92 @@ def transform(kind, src):
                 h.lineno, h.col_offset = n.lineno, n.col_offset
                 h.end_lineno, h.end_col_offset = n.body[0].lineno, n.body[0].col_offset
                 edits.append(Edit(h, f"for {k} in {d}:\n{ind2}{v} = {d}[{k}]\n{ind2}"))
+    if kind == "T23":
+        # raw-document temporaries in the JSON readers: `_raw_k = json["k"]` once behind the key gate, then `_raw_k` for every read
+        lines = src.split("\n")
+        for fn in ast.walk(tree):
+            if not (isinstance(fn, ast.FunctionDef) and fn.name == "fromJsonFragment" and fn.args.args):
+                continue
+            jp = fn.args.args[0].arg
+            gates = [b for b in fn.body if isinstance(b, ast.If)]
+            if not gates:
+                continue
+            gate = gates[0]
+            req = None
+            for c in ast.walk(gate.test):
+                if isinstance(c, ast.Call) and isinstance(c.func, ast.Name) and c.func.id == "hasKeys" and len(c.args) >= 2 and \
+                        isinstance(c.args[1], (ast.List, ast.Tuple)) and ast.unparse(c.args[0]) == f"{jp}.keys()":
+                    req = [e.value for e in c.args[1].elts if isinstance(e, ast.Constant) and isinstance(e.value, str)]
+            if not req or not gate.body or lines[gate.body[0].lineno - 1][:gate.body[0].col_offset].strip() != "":
+                continue
+            first = gate.body[0]
+            decl = []
+            for k in req:
+                nm = "_raw_" + "".join(ch if ch.isalnum() else "_" for ch in k)
+                uses = [x for st in gate.body for x in ast.walk(st) if isinstance(x, ast.Subscript) and isinstance(x.ctx, ast.Load)
+                        and isinstance(x.value, ast.Name) and x.value.id == jp and isinstance(x.slice, ast.Constant) and x.slice.value == k]
+                if not uses:
+                    continue
+                decl.append(f"{nm} = {jp}[{k!r}]")
+                for u in uses:
+                    edits.append(Edit(u, nm))
+            if decl:
+                class Pt:
+                    pass
+                pt = Pt()
+                pt.lineno = pt.end_lineno = first.lineno
+                pt.col_offset = pt.end_col_offset = first.col_offset
+                ind = " " * first.col_offset
+                edits.append(Edit(pt, ("\n" + ind).join(decl) + "\n" + ind))
+    if kind == "T24":
+        # De Morgan: `if A and B: X else: Y`  ->  `if not (A) or not (B): Y else: X`
+        lines = src.split("\n")
+        for n in ast.walk(tree):
+            if isinstance(n, ast.If) and n.orelse and isinstance(n.test, ast.BoolOp) and not (len(n.orelse) == 1 and isinstance(n.orelse[0], ast.If)):
+                if n.body[0].col_offset == n.orelse[0].col_offset and n.lineno == n.test.end_lineno:
+                    ind = " " * n.col_offset
+                    ind2 = " " * n.body[0].col_offset
+                    body = "\n".join(lines[n.body[0].lineno - 1:n.body[-1].end_lineno])
+                    orelse = "\n".join(lines[n.orelse[0].lineno - 1:n.orelse[-1].end_lineno])
+                    if lines[n.body[0].lineno - 1].startswith(ind2) and lines[n.orelse[0].lineno - 1].startswith(ind2):
+                        is_elif = lines[n.lineno - 1][n.col_offset:].startswith("elif")
+                        kw = "elif" if is_elif else "if"
+                        dual = " or " if isinstance(n.test.op, ast.And) else " and "
+                        test = dual.join(f"not ({bsegment(src, v)})" for v in n.test.values)
+                        edits.append(Edit(n, f"{kw} {test}:\n{orelse}\n{ind}else:\n{body}"))
+    if kind == "T25":
+        # two consecutive independent assignments written as one parallel assignment:  a = x ; b = y  ->  a, b = x, y
+        lines = src.split("\n")
+
+        def plain_value(e):
+            return all(isinstance(x, (ast.Name, ast.Attribute, ast.Constant, ast.BinOp, ast.UnaryOp, ast.operator, ast.unaryop, ast.expr_context))
+                       for x in ast.walk(e))
+
+        for node in ast.walk(tree):
+            for fld in ("body", "orelse"):
+                b = getattr(node, fld, None)
+                if not (isinstance(b, list) and b and isinstance(b[0], ast.stmt)):
+                    continue
+                i = 0
+                while i + 1 < len(b):
+                    s1, s2 = b[i], b[i + 1]
+                    ok = all(isinstance(x, ast.Assign) and len(x.targets) == 1 and isinstance(x.targets[0], (ast.Name, ast.Attribute)) and simple(x.targets[0])
+                             and x.lineno == x.end_lineno for x in (s1, s2))
+                    if ok and s2.lineno == s1.lineno + 1 and s1.col_offset == s2.col_offset and plain_value(s2.value) and plain_value(s1.value) \
+                            and lines[s1.lineno - 1][:s1.col_offset].strip() == "" and "#" not in lines[s1.lineno - 1] and "#" not in lines[s2.lineno - 1]:
+                        t1, t2 = bsegment(src, s1.targets[0]), bsegment(src, s2.targets[0])
+                        root1 = t1.split(".")[0]
+                        names2 = {x.id for x in ast.walk(s2.value) if isinstance(x, ast.Name)}
+                        if root1 not in names2 and t1 != t2 and not isinstance(s1.value, ast.Tuple) and not isinstance(s2.value, ast.Tuple):
+                            class Sp:
+                                pass
+                            sp = Sp()
+                            sp.lineno, sp.col_offset = s1.lineno, s1.col_offset
+                            sp.end_lineno, sp.end_col_offset = s2.end_lineno, s2.end_col_offset
+                            edits.append(Edit(sp, f"{t1}, {t2} = {bsegment(src, s1.value)}, {bsegment(src, s2.value)}"))
+                            i += 2
+                            continue
+                    i += 1
     if kind == "T8":
         # rename every function-local variable (not a parameter) in functions without nested scopes that could capture it
         for fn in ast.walk(tree):
@@ -342,13 +428,16 @@ def run_one(args):
     return kind, prop, total, ("FALSE-ALARM" if new else "silent"), new
 
 
-KINDS = ["T1", "T2", "T3", "T4", "T5", "T6", "T7", "T8", "T11", "T13", "T15", "T20", "T21", "T22"]
+KINDS = ["T1", "T2", "T3", "T4", "T5", "T6", "T7", "T8", "T11", "T13", "T15", "T20", "T21", "T22", "T23", "T24", "T25"]
 KIND_DESC = {"T1": "operands of ==/!= swapped", "T2": "ordering comparisons mirrored", "T3": "`entries += e` written as `entries = entries + e`",
              "T4": "negated test with swapped branches", "T5": "return through a temporary", "T6": "float sums/products of the same field commuted",
              "T7": "pure operands of and/or swapped", "T8": "function-local variables renamed",
              "T11": "`return A and B` of __eq__ unfolded into guard statements", "T13": "type guard inverted: `if not isinstance: raise` first",
              "T15": "`pass` inserted at the top of every function", "T20": "key order of dict literals reversed",
-             "T21": "enumerate loops rewritten with range(len(...)) and an index", "T22": "`.items()` loops rewritten as key loops with a lookup"}
+             "T21": "enumerate loops rewritten with range(len(...)) and an index", "T22": "`.items()` loops rewritten as key loops with a lookup",
+             "T23": "JSON readers read every required key once into a temporary behind the key gate",
+             "T24": "De Morgan: `if A and B: X else: Y` written as `if not A or not B: Y else: X`",
+             "T25": "two consecutive independent assignments written as one parallel assignment"}
 
 
 def run_property(prop, jobs=8):
